@@ -469,6 +469,105 @@ def bounded_refute(ob, timeout_s, K=2):
     return None
 
 
+def _native_uf():
+    """native meaning of the abstract stdlib functions of the encoding, where it is unambiguous"""
+    import sys as _sys
+
+    def int_ok(s, b):
+        try:
+            int(s, b)
+            return len(s) <= _sys.get_int_max_str_digits() or b in (2, 4, 8, 16, 32)
+        except ValueError:
+            return False
+
+    def float_ok(s):
+        try:
+            float(s)
+            return True
+        except ValueError:
+            return False
+    ascii_only = lambda s: all(ord(c) < 128 for c in s)      # noqa: E731 - str/bytes methods agree on ASCII
+    return {
+        "py_int_ok": (lambda s, b: int_ok(s, b) if 2 <= b <= 36 else None),
+        "py_int_val": (lambda s, b: int(s, b) if 2 <= b <= 36 and int_ok(s, b) else None),
+        "py_float_ok": lambda s: float_ok(s),
+        "py_lower": lambda s: s.lower() if ascii_only(s) else None,
+        "py_upper": lambda s: s.upper() if ascii_only(s) else None,
+    }
+
+
+def _collect_apps(formulas, names):
+    out, seen, stack = [], set(), list(formulas)
+    while stack:
+        x = stack.pop()
+        i = x.get_id()
+        if i in seen:
+            continue
+        seen.add(i)
+        if z3.is_quantifier(x):
+            continue        # applications under a binder are not ground
+        if z3.is_app(x):
+            if x.decl().name() in names and x.num_args() > 0:
+                out.append(x)
+            stack.extend(x.children())
+    return out
+
+
+def refine_model(ob, s, rounds=8, timeout_s=5.0):
+    """A model may give the abstract stdlib functions (int(), float(), lower() ...) values that CPython does not
+    give them at the model's own strings.  Such a model is not a counterexample.  Add the true ground facts at those
+    points and ask again (counterexample-guided refinement; every added fact is a fact about CPython).
+    Returns ('sat', model) with a consistent model, ('unsat', None) if the facts close the goal, ('unknown', None)."""
+    nat = _native_uf()
+    apps = _collect_apps(list(ob.pc) + [ob.goal], set(nat))
+    if not apps:
+        return "sat", s.model()
+    for _ in range(rounds):
+        m = s.model()
+        facts = []
+        for app in apps:
+            args = [m.eval(a, model_completion=True) for a in app.children()]
+            py = []
+            for a in args:
+                if z3.is_string_value(a):
+                    py.append(ops._z3str(a))
+                elif z3.is_int_value(a):
+                    py.append(a.as_long())
+                else:
+                    py = None
+                    break
+            if py is None:
+                continue
+            try:
+                real = nat[app.decl().name()](*py)
+            except Exception:  # noqa: BLE001
+                real = None
+            if real is None:
+                continue
+            cur = m.eval(app, model_completion=True)
+            if isinstance(real, bool):
+                ok = z3.is_true(cur) == real
+                tv = z3.BoolVal(real)
+            elif isinstance(real, int):
+                ok = z3.is_int_value(cur) and cur.as_long() == real
+                tv = z3.IntVal(real)
+            else:
+                ok = z3.is_string_value(cur) and ops._z3str(cur) == real
+                tv = z3.StringVal(real)
+            if not ok:
+                facts.append(app.decl()(*args) == tv)
+        if not facts:
+            return "sat", m
+        for f in facts:
+            s.add(f)
+        r = timed_check(s, timeout_s)
+        if r == z3.unsat:
+            return "unsat", None
+        if r != z3.sat:
+            return "unknown", None
+    return "unknown", None
+
+
 def discharge_one(ob, timeout_s=10.0, use_cvc5=True):
     """returns dict(verdict, backend, time, model).  Strategy: z3 with a short budget (most
     VCs take milliseconds); if it gives up, cvc5 --strings-exp with the full budget; then z3
@@ -482,7 +581,15 @@ def discharge_one(ob, timeout_s=10.0, use_cvc5=True):
     if r == z3.unsat:
         return {"verdict": "proved", "backend": "z3", "time": time.time() - t0}
     if r == z3.sat:
-        return {"verdict": "refuted", "backend": "z3", "time": time.time() - t0, "model": s.model()}
+        s.set("timeout", int(min(5.0, timeout_s) * 1000))
+        rr, m = refine_model(ob, s, timeout_s=min(5.0, timeout_s))
+        if rr == "sat":
+            return {"verdict": "refuted", "backend": "z3", "time": time.time() - t0, "model": m}
+        if rr == "unsat":
+            return {"verdict": "proved", "backend": "z3 + ground facts about int()/float()/lower() at the model's strings",
+                    "time": time.time() - t0}
+        return {"verdict": "unknown", "backend": "z3", "time": time.time() - t0,
+                "reason": "the only models found give int()/float()/lower() values CPython does not give them"}
     reason = s.reason_unknown()
     # a cheap look for a small counterexample first (genuine if found): broken code is then reported in seconds
     # instead of after every prover has used up its budget
